@@ -320,7 +320,7 @@ class C02(Prop):
 class C18(Prop):
     id = "C18"
     rule = ("P cases as for C01 plus families built to maximise pointer following (k records each naming through a 16-hop chain, "
-            "maximal 255-byte names shared by all records, dense empty-option lists), sizes doubling up to 65535 bytes. The model's "
+            "maximal 255-byte names shared by all records, dense empty-option lists, runs of back-to-back pointers in opaque data named by every record), sizes doubling up to 65535 bytes. The model's "
             "step count must EQUAL the implementation's cfg(dnssector_verif) counter on every accepted packet (and is compared on "
             "rejected ones too); the counter is also held to the proved bound 75*len+817. Non-trivial: packet >= 12 bytes.")
     strength = ("full statement: forall byte strings, parse_steps p <= 75 * length p + 817 (potential-function proof over the whole "
@@ -356,6 +356,17 @@ class C18(Prop):
             b = struct.pack(">HHHHHH", 1, 0x0100, 1, 0, 0, 1) + G.wire_name([b"a"]) + struct.pack(">HH", 1, 1)
             b += b"\0" + struct.pack(">HHIH", 41, 4096, 0, nopt * 4) + struct.pack(">HH", 10, 0) * nopt
             out.append(("options", b))
+            # a run of K back-to-back pointers (each to the previous one) hidden in opaque record data, R records naming through its head:
+            # K*R steps if pointer-to-pointer hops ever escape the 16-hop budget
+            K, R = max(1, (n - 40) // 4), max(1, (n - 40) // 32)
+            s0 = 19 + 12
+            run = b"".join(struct.pack(">H", 0xc000 | (12 if i == 0 else s0 + 2 * (i - 1))) for i in range(K))
+            b = struct.pack(">HHHHHH", 1, 0x8180, 1, 1 + R, 0, 0) + G.wire_name([b"a"]) + struct.pack(">HH", 1, 1)
+            b += b"\xc0\x0c" + struct.pack(">HHIH", 10, 1, 1, len(run)) + run
+            head = struct.pack(">H", 0xc000 | min(0x3fff, s0 + 2 * (K - 1)))
+            for _ in range(R):
+                b += head + struct.pack(">HHIH", 1, 1, 1, 4) + b"\1\2\3\4"
+            out.append(("ptrrun", b))
         return out
 
     def gen(self, rng, tier):
@@ -705,8 +716,11 @@ class C04(Prop):
             "fields) in several orders so the cache is exercised filled and empty. Expected values are decoded independently from the bytes. "
             "Non-trivial: all; distinct = distinct (packet, getter order).")
     strength = ("proved: flags() = (ext_flags << 16) | (word & 0x87f0) and the DNSSEC indicator as bit identities for every word and OPT value "
-                "(C04_flags_word, C04_dnssec_bits); the parser stores the OPT fixed fields it read (C04_opt_fields_from_bytes). Question "
-                "extraction equal to RFC 1035 decoding rests on the correspondence and the reference-decoder oracle.")
+                "(C04_flags_word, C04_dnssec_bits); for every accepted packet the four question getters, with the cache empty and filled, "
+                "return the labels the declarative name policy reads at offset 12 (wire form, wire form without root, lower-cased dotted "
+                "text) with the following two 16-bit words as type and class, and that decoding is unique (C04_question_getters, "
+                "C04_question_decoding_unique). PARTIAL: id / opcode / rcode / EDNS summary fields are single reads of the bytes in the "
+                "model; their equality with the implementation rests on the correspondence and the reference-decoder oracle.")
     assumptions = ["bytes < 256"]
 
     def one(self, rng, i, b, fam):
@@ -1995,7 +2009,7 @@ class C17(Prop):
     rule = ("HP: for each of parse, uncompress, compress, rename and record synthesis: f(x) alone, f(x) after f(y) on the same thread, f(x) "
             "in a context object reused after f(y), and f(x) on 8 threads concurrently with f(y), must all be byte-identical and equal to the "
             "model's f(x). (y, x) pairs are chosen to stress leakage: y fills the 32-entry suffix table / is rejected half-way / caches a "
-            "question / shares suffixes with x. Non-trivial: x is accepted and y differs from x; distinct = distinct (f, x, y).")
+            "question / shares suffixes with x / is a rename that fails half-way after writing names whose suffixes x shares; every operation is also run after every other kind of operation. Non-trivial: x is accepted and y differs from x; distinct = distinct (f, x, y).")
     strength = ("thin: purity of the model is definitional (C17_amb_independent, C17_history_independent), empty packets differ only in "
                 "the transaction id (C17_empty_only_tid_random); the content is the regenerated inventory (ambient_inventory, "
                 "dict_fresh_per_call: no static state other than the thread-local C error slot; rng only in ParsedPacket::empty; a fresh "
@@ -2024,6 +2038,28 @@ class C17(Prop):
             add("rename", "R,%s,%s,%s,1" % (hx(x), hx(t), hx(s)), "R,%s,%s,%s,1" % (hx(y), hx(s), hx(t)))
             r1, r2 = T.rand_record(rng), T.rand_record(rng)
             add("synth", "Y," + hx(T.render(rng, r1)), "Y," + hx(T.render(rng, r2) if rng.random() < 0.7 else b"garbage"))
+        # y = a rename that fails half-way (a later name would exceed 255 bytes) after names sharing suffixes with x were already written;
+        # x = any of the operations on a packet sharing those suffixes; and every operation after every other operation
+        A = lambda nm, k=1: G.RR(nm, 1, 1, 60, ("raw", bytes([10, 0, 0, k])))
+        for i in range(max(8, n // 4)):
+            tld = rng.choice([b"org", b"com", b"net"])
+            zone = [b"zone%d" % rng.randrange(3), tld]
+            longn = G.name_of_wire_len(rng.choice([240, 245, 249]) - G.wire_len(zone) + 1)
+            recs = [A([b"a"] + zone), A([b"mail", b"other", tld], 2), A(longn + zone, 3), A([b"b"] + zone, 4)]
+            yb, _ = G.encode(rng, G.Msg(7, 0x8180, [b"a"] + zone, 1, 1, an=recs), rng.choice(["none", "greedy"]))
+            if decode_or_none(yb) is None:
+                continue
+            opy = "R,%s,%s,%s,1" % (hx(yb), hx(G.wire_name([b"a-much-longer-zone-name-than-before", tld])), hx(G.wire_name(zone)))
+            xrecs = [A([b"www", b"other", tld]), A([b"mail", b"other", tld], 2), A([b"x"] + zone, 3)]
+            xb, _ = G.encode(rng, G.Msg(9, 0x8180, [b"www", b"other", tld], 1, 1, an=xrecs), "none")
+            add("compress-after-failed-rename", "C," + hx(xb), opy)
+            add("rename-after-failed-rename", "R,%s,%s,%s,1" % (hx(xb), hx(G.wire_name([b"new", tld])), hx(G.wire_name([b"other", tld]))), opy)
+            xc, _ = G.encode(rng, G.Msg(9, 0x8180, [b"www", b"other", tld], 1, 1, an=xrecs), "greedy")
+            add("uncompress-after-failed-rename", "U,%s,12" % hx(xc), opy)
+        ops = lambda: rng.choice(["P," + hx(rng.choice(comp)), "U,%s,12" % hx(rng.choice(comp)), "C," + hx(rng.choice(plain)),
+                                  "R,%s,%s,%s,1" % (hx(rng.choice(comp + plain)), hx(G.wire_name([b"new", b"name"])), hx(G.wire_name([rng.choice([b"com", b"org", b"example"])])))])
+        for i in range(n):
+            add("mixed", ops(), ops())
         return cases
 
     def oracle(self, case, io):
